@@ -328,6 +328,34 @@ class SymRe:
 symre = SymRe()
 
 
+class SymPattern:
+    """stands in for a PRECOMPILED pattern object held in a module global of the package (re.compile at import time): the same
+    symbolic matcher on SymStr, the real compiled pattern on everything else"""
+
+    def __init__(self, compiled):
+        self._c = compiled
+
+    def __getattr__(self, k):
+        return getattr(self._c, k)
+
+    def match(self, string, *a, **k):
+        if isinstance(string, SymStr) and not a and not k:
+            return symre.match(self._c.pattern, string, 0)
+        return self._c.match(string, *a, **k)
+
+    def fullmatch(self, string, *a, **k):
+        if isinstance(string, SymStr) and not a and not k:
+            pat = self._c.pattern
+            return symre.match(pat if pat.endswith('$') else pat + '$', string, 0)
+        return self._c.fullmatch(string, *a, **k)
+
+
+def wrap_compiled_patterns(module):
+    for k, v in list(vars(module).items()):
+        if isinstance(v, _re.Pattern):
+            setattr(module, k, SymPattern(v))
+
+
 def sym_float_str(x):
     """float() of a numeric SymStr: a fresh real (the numeric value is not the subject of the string harnesses)"""
     if isinstance(x, SymStr):
@@ -344,5 +372,6 @@ def install():
     unit.hasattr = sym_hasattr
     unit.getattr = sym_getattr
     unit.re = symre
+    wrap_compiled_patterns(unit)
     from .stubs import as_type_stub
     unit.float = as_type_stub(sym_float_str)
